@@ -21,13 +21,17 @@ META = dict(
 )
 
 
+def replay(ctx, path):
+    return _mempool.replay(ctx, path)
+
+
 def run(ctx):
     binary = ctx.build_adapter("mempool")
     nontrivial = lambda p: any(s["a"][0] == "test" for s in p["steps"])
     if ctx.tier == "quick":
         plan = [("rbf", "MC_rbf_c28q.cfg", "MU_std.cfg"), ("chain", "MC_chain_c28q.cfg", "MU_std.cfg")]
     else:
-        plan = [("rbf", "MC_rbf_t.cfg", "MU_std.cfg"), ("chain", "MC_chain_t.cfg", "MU_std.cfg"), ("chain", "MC_chain_exp_t.cfg", "MU_std.cfg")]
+        plan = [("rbf", "MC_rbf_t.cfg", "MU_std.cfg"), ("rbf", "MC_rbf0_q.cfg", "MU_incr0.cfg"), ("chain", "MC_chain_c28t.cfg", "MU_std.cfg"), ("chain", "MC_chain_exp_t.cfg", "MU_std.cfg")]
     per = {}
     for uni, cfg, mu in plan:
         st = _mempool.run_scenario(ctx, binary, "C28", uni, cfg, mu, nontrivial=nontrivial)
